@@ -1149,7 +1149,17 @@ func (o *oracles) livenessFailedFor(prop string, what string) {
 			behind, voters := 0, 0
 			for _, h := range s.hosts {
 				hs, ok := o.peekFull(h)
-				if !ok || hs.IsWitness || hs.IsNonVoting || h == x {
+				if !ok || hs.IsWitness || h == x {
+					continue
+				}
+				// a full member counts as a voter if the newest membership applied
+				// anywhere says so, even if it does not know yet (promoted by
+				// entries it never received)
+				if o.latest != nil {
+					if _, isVoter := o.latest.voters[h.replicaID]; !isVoter {
+						continue
+					}
+				} else if hs.IsNonVoting {
 					continue
 				}
 				voters++
